@@ -347,7 +347,61 @@ func issuerSearchRules(c *Ctx) {
 	}
 }
 
-func c10Extras(c *Ctx) { issuerSearchRules(c) }
+func c10Extras(c *Ctx) { issuerSearchRules(c); candidateSkipRules(c) }
+
+// candidateSkipRules: AddCert searches for the issuer of an edge in two places (the scan over the nodes already
+// known under the issuer name, and the fix-up of dangling edges when a node arrives later). The graph is
+// independent of insertion order only if both use the same test, so in each loop a candidate is passed over
+// (the loop continues without linking it) only past a failed x509.CheckSignatureFromKey.
+func candidateSkipRules(c *Ctx) {
+	w := c.W
+	fn := w.Fn("(*z/verifier.Graph).AddCert")
+	if fn == nil {
+		c.Undecided("R-SIBLING", "verifier.Graph.AddCert", "anchor", "-", "not found")
+		return
+	}
+	n := 0
+	for _, l := range natLoops(fn) {
+		has := false
+		for b := range l.blocks {
+			for _, in := range b.Instrs {
+				if cc := callCommon(in); cc != nil && strings.HasSuffix(calleeName(cc), "x509.CheckSignatureFromKey") {
+					has = true
+				}
+			}
+		}
+		if !has {
+			continue
+		}
+		n++
+		c.Sites++
+		var starts []EdgeRef
+		for si, s := range l.header.Succs {
+			if l.blocks[s] && s != l.header {
+				starts = append(starts, EdgeRef{B: l.header, Succ: si})
+			}
+		}
+		hdr := l.header
+		c.Cut(CutSpec{Rule: "R-SIBLING", Fn: fn, Label: fmt.Sprintf("issuer search loop #%d passes over a candidate only past a failed signature check (both searches use the same test)", n), StartEdges: starts, MinTargets: -1,
+			Target: func(in ssa.Instruction, _ resolver) bool {
+				// arriving at the header again (a continue is often threaded into the branch itself)
+				return in == hdr.Instrs[0]
+			},
+			Barrier: func(in ssa.Instruction) bool {
+				st, ok := in.(*ssa.Store)
+				if !ok {
+					return false
+				}
+				fa, ok := st.Addr.(*ssa.FieldAddr)
+				return ok && fieldLeaf(fieldName(fa)) == "issuer"
+			},
+			Cut: func(f Fact) bool {
+				cl := callOf(f.X)
+				return f.Op == "nonnil" && cl != nil && strings.HasSuffix(calleeName(&cl.Call), "x509.CheckSignatureFromKey")
+			}})
+	}
+	c.Check(n == 2, "R-SIBLING", "verifier.Graph.AddCert", "both issuer searches found", w.Pos(fn.Pos()), fmt.Sprint(n))
+}
 
 func c11Extras(c *Ctx) {
 	w := c.W
